@@ -53,15 +53,27 @@ def hps8 : List (HP ℝ) := dirs8.map hpOfInt
 
 def hps7 : List (HP ℝ) := (dirs8.take 7).map hpOfInt
 
-theorem hps8_overflow : intersectHalfplanes hps8 = .error .indexOOB := by
-  apply concurrent_overflow hps8 (throughOrigin_int dirs8) (pairwiseCrossing_int dirs8 (by decide))
+theorem hps8_overflow_before_fix : intersectHalfplanes_asIs_before_fix hps8 = .error .indexOOB := by
+  apply concurrent_overflow_before_fix hps8 (throughOrigin_int dirs8)
+    (pairwiseCrossing_int dirs8 (by decide))
   simp only [hps8, List.length_map]
   decide
 
-theorem hps7_assert : intersectHalfplanes hps7 = .error .assertFail := by
-  apply concurrent_assert hps7 (throughOrigin_int _) (pairwiseCrossing_int _ (by decide))
+theorem hps7_assert_before_fix : intersectHalfplanes_asIs_before_fix hps7 = .error .assertFail := by
+  apply concurrent_assert_before_fix hps7 (throughOrigin_int _) (pairwiseCrossing_int _ (by decide))
   simp only [hps7, List.length_map]
   decide
+
+/-- after the repair: all 28 pairwise intersections (the common point) are returned -/
+theorem hps8_fixed : intersectHalfplanes hps8 = .ok (List.replicate 28 ⟨0, 0⟩) := by
+  rw [concurrent_fixed hps8 (throughOrigin_int dirs8) (pairwiseCrossing_int dirs8 (by decide))]
+  have : (pairIdx hps8.length).length = 28 := by simp only [hps8, List.length_map]; decide
+  rw [this]
+
+theorem hps7_fixed : intersectHalfplanes hps7 = .ok (List.replicate 21 ⟨0, 0⟩) := by
+  rw [concurrent_fixed hps7 (throughOrigin_int _) (pairwiseCrossing_int _ (by decide))]
+  have : (pairIdx hps7.length).length = 21 := by simp only [hps7, List.length_map]; decide
+  rw [this]
 
 /-! ### `make_halfplanes` before the repair -/
 
